@@ -29,7 +29,14 @@ pub fn run(cases: &[Vec<String>]) {
         let id = case[0].clone();
         let c = case.clone();
         take_panics();
-        let res = run_async_case(1, move || run_case(c));
+        let res = if c[2] == "TIMED" {
+            // id c04 TIMED <kind> <reliable> <code> <t0> <events> <horizon> [provs]: a server transaction under the paused clock
+            let mut u = vec![c[0].clone(), "c06".into()];
+            u.extend(c[3..].iter().cloned());
+            run_async_case(7, move || crate::tsx_server::run_case(u))
+        } else {
+            run_async_case(1, move || run_case(c))
+        };
         let panics = take_panics();
         match res {
             Ok(s) if panics.is_empty() => println!("{}\t{}", id, s),
